@@ -13,6 +13,7 @@ mod cluster;
 mod dissem;
 mod hostile;
 mod kernel;
+mod kworld;
 mod keys;
 mod model;
 mod net;
@@ -21,6 +22,7 @@ mod poolworld;
 mod props;
 mod repairworld;
 mod replay;
+mod vworld;
 mod wire;
 
 use std::collections::{BTreeMap, BTreeSet};
